@@ -188,9 +188,8 @@ Definition simple_builtin (b : builtin) (args : list value) : VM (list value) :=
       match a1 with
       | VTab r => vdo t <- read_vtab r;
           vdo e <- v_border t;
-          if e =? 0 then (match a2 with VNil => vret [VNil] | _ => vunsup 217 end) else
           vdo pos <- v_opt_int a2 e;
-          if (pos <? 1) || (pos >? e) then vunsup 217 else
+          if (pos <? 1) || (pos >? e) then vret [] else
           let v := kv_get (t_kv t) (vint pos) in
           let moved := seq_get (t_kv t) (pos + 1) (Z.to_nat (e - pos)) in
           vdo _ <- write_vtab r (mkTab (set_seq (t_kv t) pos (moved ++ [VNil])) (t_meta t)); vret [v]
